@@ -135,7 +135,17 @@ func cmdRun(args []string) {
 		jobs = append(jobs, job{fmt.Sprintf("random-%d", s), func(a *App, mon *Mon) { RandomHistory(a, mon, s, st) }})
 	}
 	jobs = append(jobs, directedJobs(*prop, *tier, *seed)...)
-	stats := runJobs(jobs, *workers, func(st *Stats) *Mon { return NewMon(st) })
+	want := func(p string) bool { return *prop == "all" || *prop == p }
+	stats := runJobs(jobs, *workers, func(st *Stats) *Mon {
+		m := NewMon(st)
+		if want("C19") {
+			attachC19(m, 23)
+		}
+		if want("C17") || *prop == "C15" {
+			attachC17(m, 29)
+		}
+		return m
+	})
 	extraChecks(*prop, *tier, *seed, stats)
 
 	props := []string{*prop}
@@ -320,8 +330,11 @@ var mandatory = map[string][]string{
 	"C12": {"counts", "callback-arguments", "callback-per-batch"},
 	"C13": {"E1-owner-sum", "E2-withdraw-provider", "E3-withdraw-owner", "E5-earn"},
 	"C14": {"min-deposit"},
-	"C15": {"binding-indexed", "define", "bind"},
+	"C15": {"binding-indexed", "define", "bind", "listing-by-service", "listing-by-service-and-owner"},
 	"C16": {"request-in-current-batch", "expiry-cleanup", "marker-indexes-agree"},
+	"C17": {"definition", "binding", "bindings-of-service", "bindings-of-service-and-owner", "pending-requests-of-binding", "earned-fees", "withdraw-address", "request-context", "requests-of-batch", "responses-of-batch", "request", "response", "params", "schema"},
+	"C18": {"context-id", "request-id", "keys-distinct", "scan-exact", "issue-event-position"},
+	"C19": {"prep-returns-escrow", "export-validates", "json-roundtrip", "import-export-identity"},
 	"C20": {"no-panic"},
 }
 
